@@ -512,10 +512,40 @@ def generate():
     return '\n'.join(out)
 
 
+def refusal_stub(msg):
+    """What is written when the source is refused: every name the models need is defined, and the one
+    table entry is a str-typed data type with an unrecognised conversion, so that the extracted model
+    still builds (it answers "not modelled") while the coverage theorems of Props/C17.v cannot compile."""
+    m = ''.join(c if 32 <= ord(c) <= 126 and c != '"' else ' ' for c in msg)[:400]
+    return '\n'.join([
+        '(* GENERATED by translator/datatypes_gen.py: THE SOURCE WAS REFUSED (see build/translator.status). *)',
+        'From Coq Require Import ZArith String List.',
+        'From PyecoreV Require Import Model.DataTypeDecl.',
+        'Import ListNotations.',
+        'Local Open Scope string_scope.',
+        f'Definition refusal : string := "{m}".',
+        'Definition default_to_string : ts_tag := TS_unrecognised refusal.',
+        'Definition default_from_string : fs_tag := FS_unrecognised refusal.',
+        'Definition eenum_to_string : ts_tag := TS_unrecognised refusal.',
+        'Definition eenum_from_string : enum_fs_tag := EFS_unrecognised refusal.',
+        'Definition eenum_getEEnumLiteral : enum_get_tag := EGET_unrecognised refusal.',
+        'Definition eenumliteral_str : lit_str_tag := LS_unrecognised refusal.',
+        'Definition ecore_datatypes : list dtdecl := [',
+        '  {| dt_name := "translator-refused"; dt_type := PT_str; dt_ts := TS_unrecognised refusal;',
+        '     dt_fs := FS_unrecognised refusal; dt_default := DF_None; dt_factory := false |} ].',
+        'Definition java_trans_map : list jtentry := [].',
+        'Definition parse_date_formats : list string := [].',
+        'Definition xml_datatypes : list xmldecl := [',
+        '  {| xd_name := "translator-refused"; xd_icn := "java.lang.String"; xd_ts := TS_unrecognised refusal;',
+        '     xd_fs := FS_unrecognised refusal |} ].',
+        ''])
+
+
 def main():
     try:
         text = generate()
     except Refuse as e:
+        write_if_changed(OUT, refusal_stub(str(e)))
         return f'datatypes_gen refused: {e}'
     write_if_changed(OUT, text)
     return None
